@@ -47,6 +47,10 @@ Definition print_info_raw := print_info_with (fun s => s).
 (* report for a named file: "path: " then the tree *)
 Definition report (path : bytes) (i : info) : bytes := path ++ [58; 32] ++ print_info i 0.
 
+(* a run over several files (directory scan, several arguments): the reports one after the other *)
+Definition report_all (items : list (bytes * info)) : bytes :=
+  flat_map (fun pi => report (fst pi) (snd pi)) items.
+
 (* ---- the specification side: what the layout must be, from the structure alone ---- *)
 Fixpoint lines_of (san : bytes -> bytes) (i : info) (indent : nat) : list bytes :=
   match i with
@@ -68,6 +72,14 @@ Fixpoint split_lines_acc (cur : bytes) (s : bytes) : list bytes :=
   | c :: r => if c =? 10 then rev cur :: split_lines_acc [] r else split_lines_acc (c :: cur) r
   end.
 Definition split_lines (s : bytes) : list bytes := split_lines_acc [] s.
+
+(* the same function with a linear-time reversal ([rev] is quadratic): what the spec checker runs *)
+Fixpoint split_lines_fast_acc (cur : bytes) (s : bytes) : list bytes :=
+  match s with
+  | [] => match cur with [] => [] | _ => [rev_append cur []] end
+  | c :: r => if c =? 10 then rev_append cur [] :: split_lines_fast_acc [] r else split_lines_fast_acc (c :: cur) r
+  end.
+Definition split_lines_fast (s : bytes) : list bytes := split_lines_fast_acc [] s.
 
 Definition is_c0_or_del (b : N) : bool := (b <? 32) || (b =? 127).
 
@@ -111,3 +123,52 @@ Fixpoint stray_c1 (fuel : nat) (s : bytes) : bool :=
       end
   end.
 
+
+(* The same two scans without byte indices ([runes] carries the index of every rune as a
+   unary number: quadratic on long outputs). *)
+Definition bad_vr (valid : bool) (r : N) : bool :=
+  valid && (((r <? 32) && negb (r =? 10)) || (r =? 127) || in_range 128 159 r).
+
+Fixpoint has_bad_rune (fuel : nat) (s : bytes) : bool :=
+  match fuel with
+  | O => false
+  | S f =>
+      match s with
+      | [] => false
+      | _ =>
+          match decode_rune s with
+          | (v, r, sz) => bad_vr v r || has_bad_rune f (drop sz s)
+          end
+      end
+  end.
+
+(* every rune of the output is a valid UTF-8 sequence and is the LF that ends a line, a printable
+   ASCII character or a code point from U+00A0 upwards (no C0, DEL, C1; no malformed octets) *)
+Definition good_vr (valid : bool) (r : N) : bool :=
+  valid && ((r =? 10) || in_range 32 126 r || (160 <=? r)).
+
+Fixpoint all_good_runes (fuel : nat) (s : bytes) : bool :=
+  match fuel with
+  | O => true
+  | S f =>
+      match s with
+      | [] => true
+      | _ =>
+          match decode_rune s with
+          | (v, r, sz) => good_vr v r && all_good_runes f (drop sz s)
+          end
+      end
+  end.
+
+(* depth of each output line, from the structure alone: a description at the depth of its node,
+   an attribute one level below the node it belongs to *)
+Fixpoint depths_of (i : info) (depth : nat) : list nat :=
+  match i with
+  | Info _ a c => depth :: map (fun _ => S depth) a ++ flat_map (fun ch => depths_of ch (S depth)) c
+  end.
+
+(* number of descriptions and attributes of a report *)
+Fixpoint size_of (i : info) : nat :=
+  match i with
+  | Info _ a c => S (length a) + list_sum (map size_of c)
+  end.
